@@ -52,9 +52,9 @@ def run(ctx):
                    'state transition before the call', minimum=8)
     from rules import lib_guard
     for cfg, fb in sorted(fbs.items()):
-        lib_guard.check_guard_calls(ctx, fb, rgc)
-        lib_order.check(ctx, fb, cfg, WORDS, rw, ro, rc)
-        c15_inv.check(ctx, fb, cfg, ri)
+        ctx.guard(lambda: lib_guard.check_guard_calls(ctx, fb, rgc))
+        ctx.guard(lambda: lib_order.check(ctx, fb, cfg, WORDS, rw, ro, rc))
+        ctx.guard(lambda: c15_inv.check(ctx, fb, cfg, ri))
         fns = [f for f in fb.fn.values() if f.clsq == SM and f.cfg is not None]
         opts = {f.cls for f in fns}
         if len(opts) < 4:
